@@ -156,3 +156,71 @@ func RunTenants(r *report.Run) int {
 	}
 	return len(cs)
 }
+
+// ---------- versions that sort before the letters and digits ----------
+//
+// A version is any text before the first underscore of the file name. Versions beginning with a blank,
+// a sign or a dot sort before everything else - including the rows the revision table keeps for its own
+// bookkeeping - and are versions like any other: once applied they are history.
+
+type OddCase struct {
+	Version string `json:"version"`
+}
+
+func evalOdd(c OddCase) (problems []string) {
+	bad := func(f string, a ...any) { problems = append(problems, fmt.Sprintf(f, a...)) }
+	w, err := clih.NewWork()
+	if err != nil {
+		return []string{"harness: " + err.Error()}
+	}
+	defer w.Close()
+	if err := w.WriteDir("migrations", map[string]string{
+		c.Version + "_a.sql": "CREATE TABLE journal (sid integer NOT NULL);\nINSERT INTO journal (sid) VALUES (1);\n",
+		"z9_b.sql":           "INSERT INTO journal (sid) VALUES (2);\n",
+	}); err != nil {
+		return []string{"harness: " + err.Error()}
+	}
+	dirURL, dbURL := "file://"+w.Path("migrations"), w.URL("db.sqlite")
+	if r := w.Run(nil, "migrate", "apply", "1", "--dir", dirURL, "--url", dbURL); r.Exit != 0 {
+		bad("`migrate apply 1` fails: %s", r)
+		return
+	}
+	st := status(w, dirURL, dbURL)
+	var pend []string
+	for _, p := range st.Pending {
+		pend = append(pend, p.Version)
+	}
+	if fmt.Sprint(pend) != "[z9]" {
+		bad("version %q was applied by `migrate apply 1`; status lists pending %q (status %q, error %q), want [z9]", c.Version, pend, st.Status, st.Error)
+	}
+	r2 := w.Run(nil, "migrate", "apply", "--dir", dirURL, "--url", dbURL)
+	if r2.Exit != 0 || strings.Contains(r2.Stderr, "panic:") {
+		bad("the second `migrate apply` fails: %s", r2)
+	}
+	j, _ := w.Query("db.sqlite", "SELECT sid FROM journal ORDER BY rowid")
+	if fmt.Sprint(j) != "[[1] [2]]" {
+		bad("after both runs the statements executed are %v, want each once", j)
+	}
+	return
+}
+
+func oddCases() []OddCase {
+	var cs []OddCase
+	for _, v := range []string{"-1", "#1", ".1", "+1", "(1", "!1", " 1", "-", ".a", "0", "A"} {
+		cs = append(cs, OddCase{v})
+	}
+	return cs
+}
+
+func RunOdd(r *report.Run) int {
+	cs := oddCases()
+	out := make([][]string, len(cs))
+	enum.Parallel(len(cs), func(i, _ int) { out[i] = evalOdd(cs[i]) })
+	for i, c := range cs {
+		r.Case("odd|"+fmt.Sprint(c), true)
+		if len(out[i]) > 0 {
+			r.Violate("", fmt.Sprintf("version %q: %s", c.Version, strings.Join(out[i], " | ")), map[string]any{"odd": c})
+		}
+	}
+	return len(cs)
+}
